@@ -215,7 +215,14 @@ def _check_opchains(inp, opmap, qd):
         ref_m = W.words_matrix(ref, opmap, len(qd)).astype(complex)
         if not close(M, ref_m, float(np.max(np.abs(ref_m)))):
             fails.append('MPO matrix differs from the sum of padded chains')
+        if set(mpo.nid_map.keys()) != set(g.nodes.keys()):
+            fails.append('nid_map does not cover exactly the graph nodes')
+        if len(set(mpo.nid_map.values())) != len(mpo.nid_map):
+            fails.append('nid_map maps two nodes to the same bond index')
         for nid, (l, i) in mpo.nid_map.items():
+            if not (0 <= l < len(mpo.qD) and 0 <= i < len(mpo.qD[l])):
+                fails.append(f'nid_map[{nid}] = {(l, i)} out of range')
+                continue
             if mpo.qD[l][i] != g.nodes[nid].qnum:
                 fails.append(f'qD[{l}][{i}] != qnum of node {nid}')
         if mpo.bond_dims != widths:
